@@ -96,6 +96,11 @@ def gen(rng, kind, tier):
         # unsigned) or single precision.  All generated data are dyadic with at most 11 significant bits, so
         # every pixel value is exactly representable in the chosen type and in float64
         case["dtype"] = str(rng.choice(["uint8", "uint16", "int16", "int64", "float32", "int8"]))
+    if thr == "number" and "dtype" not in case and not case["extreme_map"] and rng.random() < 0.3:
+        # round 7 (C18_19): the number is handed over as a single-precision numpy scalar (a grey level read from a raw
+        # image) whose value has no short decimal form, and some cells of the double-precision image hold exactly that
+        # value - "the given number" is the value of the scalar, so these cells do not exceed it
+        case["thr_scalar"] = "float32"
     return case
 
 
@@ -206,6 +211,7 @@ def run(case, rec):
     rho = float(case["minimal_radius"]) * float(case.get("unit", 1.0))  # a length: expressed in the grid's unit
     r = np.random.default_rng(case["thr_seed"])
     levels = np.unique(data[np.isfinite(data)]) if np.any(np.isfinite(data)) else np.array([0.0])
+    thr_pass = None
     if rule == "number":
         if r.random() < 0.5 or len(levels) < 2:
             T = float(r.choice(levels))  # exactly on a data level: tests the strictness of '>'
@@ -213,6 +219,15 @@ def run(case, rec):
             i = int(r.integers(len(levels) - 1))
             T = float((levels[i] + levels[i + 1]) / 2)
         thr_arg = T
+        if case.get("thr_scalar") and dtype is None and len(levels) >= 2:
+            T = float(np.float32(r.uniform(float(levels[0]), float(levels[-1]))))
+            ties = (r.random(data.shape) < 0.06) & np.isfinite(data)
+            data = data.copy()
+            data[ties] = T
+            thr_arg = T
+            thr_pass = np.float32(T)
+            assert float(thr_pass) == T
+            rec.count("threshold_given_as_float32_scalar_with_cells_exactly_on_it")
     else:
         thr_arg = rule
     label = f"grid={geom.grid_label(spec)}{spec['shape']} image={case['image']} rule={rule} thr={thr_arg} rho={rho}"
@@ -228,7 +243,7 @@ def run(case, rec):
                   f"locate_droplets modified the field it was given; {label}")
         return c, log
 
-    c, log = analyse(data, thr_arg)
+    c, log = analyse(data, thr_pass if thr_pass is not None else thr_arg)
     if not rec.check(c.ok, "no-exception", f"locate_droplets raised {common.exc_text(c.exc) if c.exc else ''}; {label}"):
         rec.evaluated(nontrivial=False)
         return
